@@ -19,7 +19,10 @@ PASS_CHECKS = {"rename_locals_base_score": ["C01", "C06"], "extract_helper_explo
                "receiver_rename_score": ["C01"], "param_rename_decodeone": ["C07"], "decode_index_loop": ["C07", "C09"], "score_err_inline": ["C01", "C12"], "unused_helper_added": ["C15"],
                "v2_env_decode_range_index": ["C08"], "env_score_single_return": ["C03", "C13"],
                "v2_score_min_if": ["C04", "C05"], "v3_base_score_min_if": ["C01", "C06"], "v2_base_encode_builder": ["C08", "C10"], "mpr_value_flat": ["C03", "C20"],
-               "decode_errors_is": ["C07", "C11"], "v3_env_encode_sprintf_s": ["C10"]}
+               "decode_errors_is": ["C07", "C11"], "v3_env_encode_sprintf_s": ["C10"],
+               "names_valueof_restructure": ["C18", "C17"], "version_get_switch": ["C20"], "report_temporal_locals": ["C17"], "report_assign_fields": ["C17"],
+               "v2_env_decodeone_restructure": ["C08", "C11"], "v2_env_encode_plus": ["C08"], "export_with_restructure": ["C19"],
+               "unused_field_added": ["C15", "C09"], "function_moved_file": ["C06", "C12"]}
 def run(kind, flt):
     results = []
     if kind in ("pass", "fail"):
